@@ -24,6 +24,8 @@ type Check struct {
 	Rules       []string
 	Assumptions []string
 	Level       string // default "other"
+	Technique   string // deciding method (MANIFEST "technique")
+	Note        string // MANIFEST "level_note"
 }
 
 // Ctx is handed to rules: program, call graph (lazy), report.
@@ -62,6 +64,22 @@ func main() {
 		}
 		sort.Strings(ids)
 		fmt.Println(strings.Join(ids, "\n"))
+	case "describe":
+		var out []map[string]any
+		var ids []string
+		for id := range registry {
+			ids = append(ids, id)
+		}
+		sort.Strings(ids)
+		for _, id := range ids {
+			c := registry[id]
+			lv := c.Level
+			if lv == "" {
+				lv = "other"
+			}
+			out = append(out, map[string]any{"id": id, "level": lv, "explanation": c.Explanation, "rules": c.Rules, "assumptions": c.Assumptions, "technique": c.Technique, "note": c.Note})
+		}
+		jsonOut(out)
 	case "check":
 		if len(os.Args) < 3 {
 			usage()
